@@ -1,9 +1,15 @@
 pub mod c01;
+pub mod c02;
+pub mod c03;
+pub mod c08;
 
 use crate::fw::Ctx;
 pub fn dispatch(ctx: &Ctx) -> i32 {
     match ctx.id {
         "C01" => c01::run(ctx),
+        "C02" => c02::run(ctx),
+        "C03" => c03::run(ctx),
+        "C08" => c08::run(ctx),
         other => {
             println!("INCONCLUSIVE property={} no such check", other);
             2
